@@ -13,7 +13,7 @@
    7 GROUP     : at members ways(id nodes updates) | panicked outer inner tainted
    status: 0 ok, 1 UpdateIndexOutOfRangeError, 2 panic, 3 any other error.
    node = id ver cs lat lon;  member = type ref role ver cs lat lon orient;
-   update = index ver ts cs lat lon reverse;  segment = index orient reversed points.
+   update = index ver ts cs lat lon reverse (ts and every time t: seconds, nanoseconds);  segment = index orient reversed points.
    codes: 1 = model <> implementation (projected observables), 2 = property oracle fails on the
           observation, 0 = case does not parse. *)
 From Coq Require Import ZArith List Bool.
@@ -22,8 +22,12 @@ Import ListNotations.
 Open Scope Z_scope.
 Open Scope wire_scope.
 
+(* an instant: seconds and nanoseconds since the Unix epoch (instants outside the int64
+   nanosecond range occur) *)
+Definition ptime : P Z := s <- pint ;; n <- pint ;; ret (s * 1000000000 + n).
+
 Definition pupdate : P update :=
-  i <- pint ;; v <- pint ;; ts <- pint ;; cs <- pint ;; la <- pint ;; lo <- pint ;; r <- pbool ;;
+  i <- pint ;; v <- pint ;; ts <- ptime ;; cs <- pint ;; la <- pint ;; lo <- pint ;; r <- pbool ;;
   ret (mkUpdate i v ts cs la lo r).
 Definition pnode : P wnode :=
   i <- pint ;; v <- pint ;; cs <- pint ;; la <- pint ;; lo <- pint ;; ret (mkNode i v cs la lo).
@@ -50,12 +54,13 @@ Arguments mkObs {C}. Arguments o_status {C}. Arguments o_idx {C}. Arguments o_cs
 Definition pobs {C} (pc : P C) : P (observed C) :=
   st <- pint ;; idx <- pint ;; cs <- plist pc ;; us <- plist pupdate ;; ret (mkObs st idx cs us).
 
-(* judgement 1 on projected observables: success = children and pending; error = the index only
-   (the half-updated state and the untouched Updates field are not part of the property) *)
+(* judgement 1 on projected observables: success = children and pending; error = the index and
+   the update list, which must be left as it was (a retry must find every update); the
+   half-updated children are not part of the property *)
 Definition res_matches {C} (ceqb : C -> C -> bool) (r : ares C) (o : observed C) : bool :=
   match r with
   | AOk cs p => (o_status o =? 0) && list_eqb ceqb cs (o_cs o) && list_eqb update_eqb p (o_us o)
-  | AErr i _ _ => (o_status o =? 1) && (i =? o_idx o)
+  | AErr i _ us => (o_status o =? 1) && (i =? o_idx o) && list_eqb update_eqb us (o_us o)
   | APanic => o_status o =? 2
   end.
 
@@ -71,11 +76,12 @@ Definition apply_oracle {C} (ceqb : C -> C -> bool) (spec : Z -> list update -> 
     && list_eqb update_eqb (spec_pending t us) (o_us o)
   else
     (o_status o =? 1) && existsb (fun u => bad t (length cs) u && (u_index u =? o_idx o)) us
-    && Nat.eqb (length (o_cs o)) (length cs).
+    && Nat.eqb (length (o_cs o)) (length cs)
+    && list_eqb update_eqb us (o_us o).   (* an error leaves the update list as it was *)
 
 Definition check_apply {C} (pc : P C) (upd : update -> C -> C) (ceqb : C -> C -> bool)
            (spec : Z -> list update -> Z -> C -> C) : P (list Z) :=
-  t <- pint ;; cs <- plist pc ;; us <- plist pupdate ;; o <- pobs pc ;;
+  t <- ptime ;; cs <- plist pc ;; us <- plist pupdate ;; o <- pobs pc ;;
   let j1 := res_matches ceqb (apply_updates_up_to upd t cs us) o in
   let j2 := apply_oracle ceqb spec t cs us o in
   ret (code_if j1 1 ++ code_if j2 2)%list.
@@ -87,7 +93,7 @@ Definition obs_same {C} (ceqb : C -> C -> bool) (a b : observed C) : bool :=
    else if o_status a =? 1 then o_idx a =? o_idx b else true).
 
 Definition check_compose_k {C} (pc : P C) (upd : update -> C -> C) (ceqb : C -> C -> bool) : P (list Z) :=
-  t1 <- pint ;; t2 <- pint ;; cs <- plist pc ;; us <- plist pupdate ;;
+  t1 <- ptime ;; t2 <- ptime ;; cs <- plist pc ;; us <- plist pupdate ;;
   a1 <- pobs pc ;; a2 <- pobs pc ;; b <- pobs pc ;;
   let m1 := apply_updates_up_to upd t1 cs us in
   let j1 :=
@@ -107,7 +113,7 @@ Definition check_compose : P (list Z) :=
 
 (* ---- LSAT ---- *)
 Definition check_lsat : P (list Z) :=
-  t <- pint ;; ns <- plist pnode ;; us <- plist pupdate ;;
+  t <- ptime ;; ns <- plist pnode ;; us <- plist pupdate ;;
   panicked <- pbool ;; at_ <- plist ppoint ;; st <- pint ;; ls <- plist ppoint ;;
   let j1 :=
     match line_string_at t ns us with
@@ -127,7 +133,7 @@ Definition check_lsat : P (list Z) :=
 
 (* ---- UPTO ---- *)
 Definition check_upto : P (list Z) :=
-  t <- pint ;; us <- plist pupdate ;; o <- plist pupdate ;;
+  t <- ptime ;; us <- plist pupdate ;; o <- plist pupdate ;;
   let j1 := list_eqb update_eqb (up_to t us) o in
   let j2 := list_eqb update_eqb (filter (fun u => u_ts u <=? t) us) o in
   ret (code_if j1 1 ++ code_if j2 2)%list.
@@ -201,7 +207,7 @@ Definition segment_ok (ms : list member) (ws : list way) (at_ : Z) (s : segment)
   end.
 
 Definition check_group : P (list Z) :=
-  at_ <- pint ;; ms <- plist pmember ;; ws <- plist pway ;;
+  at_ <- ptime ;; ms <- plist pmember ;; ws <- plist pway ;;
   panicked <- pbool ;; outer <- plist psegment ;; inner <- plist psegment ;; tainted <- pbool ;;
   let j1 :=
     match group ms ws at_ with
